@@ -380,7 +380,7 @@ def run(pid, tier, seed):
                 wrapper = os.path.join(d3, "run.sh")
                 open(wrapper, "w").write("#!/bin/sh\nexec %s -R %s\n" % (setarch + " " + os.uname().machine, plain))
                 os.chmod(wrapper, 0o755)
-                outs.append(proto.run_harness(wrapper, lines, timeout=900, cwd=d3, env_extra={"MALLOC_PERTURB_": "3"}))
+                outs.append(proto.run_harness(["/bin/sh", wrapper], lines, timeout=900, cwd=d3, env_extra={"MALLOC_PERTURB_": "3"}))   # not exec'ed itself: ETXTBSY race with forks of other threads
             res["plain"] = outs
             if vg and (i % (12 if quick else 5) == 0) and (kind not in ("long-edit", "norms-realloc", "dense-resolve", "boundary") or not quick):
                 d4 = d + "_vg"
@@ -388,7 +388,7 @@ def run(pid, tier, seed):
                 wrapper = os.path.join(d4, "run.sh")
                 open(wrapper, "w").write("#!/bin/sh\nexec %s -q --error-exitcode=97 --track-origins=no --child-silent-after-fork=no %s\n" % (vg, plain))
                 os.chmod(wrapper, 0o755)
-                res["vg"] = proto.run_harness(wrapper, lines, timeout=1800, cwd=d4)
+                res["vg"] = proto.run_harness(["/bin/sh", wrapper], lines, timeout=1800, cwd=d4)
             for dd in (d, d + "_p0", d + "_p1", d + "_noaslr", d + "_vg"):
                 shutil.rmtree(dd, ignore_errors=True)
             return res
